@@ -86,7 +86,7 @@ fn props() -> Vec<Prop> {
     }, Prop {
         id: "C05",
         rule: "grammars: hand-written corpus (a^n b^n, nested/sequenced parentheses, left-recursive expressions, S->SS|a|eps, mutual recursion, unit cycles, nullable chains, hidden left recursion, palindromes), three parametric grammars (expanded by parameter reachability), random grammars over ? * + {m,n} groups and references with unconfusable terminals, 'nullable-web' grammars (many mutually dependent nullable symbols referenced in every index order, short strings); for each the engine is walked over every byte string up to max_len over the grammar alphabet plus a junk byte, and the accepting flag of every reachable prefix and the allowed/refused status of every next byte are compared with the proved Lean spec (cfg q); multi-byte tokens of a synthetic vocabulary are compared the same way at sampled prefixes; along seeded walks (also on Lark grammars with regex lexemes and %ignore and on JSON schemas: family rows-any) the item set of every Earley row of the real parser is compared with the Lean rows model M4; distinct non-trivial = distinct grammars walked",
-        quick_cases: 45,
+        quick_cases: 48,
         thorough_cases: 160,
         gen: c05::gen_case,
         run: c05::run_case,
@@ -272,7 +272,8 @@ fn main() {
         std::process::exit(2);
     };
     // quiet panics: they are caught per case and reported
-    std::panic::set_hook(Box::new(|_| {}));
+    // panics inside a case are caught per case; with LLGV_TRACE the location is printed
+    std::panic::set_hook(Box::new(|info| { if std::env::var("LLGV_TRACE").is_ok() { eprintln!("panic: {info}"); } }));
     let mut rep = Report::default();
     rep.rule = p.rule.to_string();
     let mut mb = ModelBatch::new(&model_exe);
@@ -351,9 +352,10 @@ fn main() {
     match mb.run() {
         Ok(mm) => {
             for m in mm.iter().take(10) {
-                // queries to a proved *specification* decider (S4 chart recogniser): a disagreement is
+                // queries to a proved *specification* decider (S4 chart recogniser, S5 validator, S2 regex language via a
+                // checked DFA certificate, numeric emptiness): a disagreement is
                 // a concrete input on which the implementation departs from the property
-                let is_spec = m.request.starts_with("cfg q ") || m.request.starts_with("json v ") || m.request.starts_with("num sat ");
+                let is_spec = m.request.starts_with("cfg q ") || m.request.starts_with("json v ") || m.request.starts_with("num sat ") || m.request.starts_with("rx qs ");
                 rep.fail(
                     if is_spec { "spec" } else { "model" },
                     &format!("{}:{}", p.id.to_lowercase(), if is_spec { "spec-mismatch" } else { "model-mismatch" }),
